@@ -10,8 +10,10 @@ mixture_inference.estimate_total).  For each copy:
   estimate-form      recorded estimate == <v, y>
   combination-form   total == sum(e/var) / sum(1/var)              (inverse-variance weighting)
   floor-and-default  the estimate is floored at 1 and an empty record gives 1
-  sibling-agreement  the four copies are the same program up to renaming (a one-sided edit - e.g. solver tolerances - shows
-                     up as a divergence of that copy from the majority)
+  sibling-agreement  the four copies solve and test alike (solver, its tolerances, test tolerances): a one-sided edit shows up
+                     as a divergence of that copy from the majority
+All rules are stated on the *expanded* block (engines/blockeval.py): locals, hoisted temporaries, guard clauses, option-style
+helpers and default-then-override spellings denote the same terms.
 Not decided: whether lsmr converges for a given matrix (numeric).
 """
 import ast
@@ -19,6 +21,8 @@ import copy
 
 from ..srcmodel import AnalysisError, U, calls_in, walk_shallow, target_names, names_in, kwarg
 from ..symexpr import SymEval, Atoms, Alg, Rat, sym, const
+from ..normalise import single_exit
+from ..engines.blockeval import BlockEval, T
 
 COPIES = [
     ('src/mbi/inference.py', 'FactoredInference._setup', 'block'),
@@ -108,16 +112,12 @@ def run(ctx):
             U(body[0].value.args[0]) == fi.params[1] and not ifs[0].orelse
         ctx.ob('pass-through', fi, ifs[0], ok, 'an omitted total must become estimate_total(%s), nothing else' % fi.params[1])
         check_pass_through(ctx, fi, total, ifs[0])
-    deviants = check_siblings(ctx, blocks)
+    feats = []
     for fi, block, total in blocks:
-        try:
-            check_features(ctx, fi, block, total)
-        except AnalysisError as e:
-            if fi.qualname + '@' + fi.rel in deviants:
-                # the copy already stands reported as diverging from its siblings; its own shape is unrecognised
-                ctx.note('feature rules not applicable to the diverging copy %s (%s)' % (fi.qualname, e))
-                continue
-            raise
+        f = check_features(ctx, fi, block, total)
+        if f is not None:
+            feats.append((fi, f))
+    check_siblings(ctx, feats)
     ctx.floor('feature obligations', sum(1 for o in ctx.obligations if o.rule.endswith('-form') or o.rule in
                                          ('ones-target', 'same-system', 'guarded-append', 'floor-and-default')), 24)
 
@@ -171,183 +171,287 @@ def check_model_total(ctx, fi, total):
                        'object keeps the total of an earlier call' % (total, total, U(s_)[:70]))
 
 
+EMPTY_INITS = ('np.array([])', 'numpy.array([])', '[]', 'list()', 'np.empty(0)', 'np.zeros(0)', 'np.array([],dtype=float)')
+SOLVERS = ('lsmr', 'lsqr')
+
+
+class Replace(ast.NodeTransformer):
+    """top-down replacement: fn(node) -> replacement or None"""
+    def __init__(self, fn):
+        self.fn = fn
+
+    def visit(self, node):
+        r = self.fn(node)
+        if r is not None:
+            return r
+        return self.generic_visit(node)
+
+
+def name(n):
+    return ast.Name(id=n, ctx=ast.Load())
+
+
+def empty_test(t, symbols, lists):
+    """'empty' / 'nonempty' / None for a test over accumulator symbols"""
+    neg = False
+    while isinstance(t, ast.UnaryOp) and isinstance(t.op, ast.Not):
+        t, neg = t.operand, not neg
+    res = None
+    if isinstance(t, ast.Name) and t.id in lists:
+        res = 'nonempty'
+    elif isinstance(t, ast.Compare) and len(t.ops) == 1:
+        l, op, r = t.left, t.ops[0], t.comparators[0]
+        flip = {ast.Lt: ast.Gt, ast.Gt: ast.Lt, ast.LtE: ast.GtE, ast.GtE: ast.LtE, ast.Eq: ast.Eq, ast.NotEq: ast.NotEq}
+        if isinstance(l, ast.Constant) and type(op) in flip:
+            l, op, r = r, flip[type(op)](), l
+        size = (isinstance(l, ast.Call) and U(l.func) == 'len' and len(l.args) == 1 and isinstance(l.args[0], ast.Name) and l.args[0].id in symbols) \
+            or (isinstance(l, ast.Attribute) and l.attr == 'size' and isinstance(l.value, ast.Name) and l.value.id in symbols) \
+            or (T(l).endswith('.shape[0]') and isinstance(l, ast.Subscript) and isinstance(l.value, ast.Attribute)
+                and isinstance(l.value.value, ast.Name) and l.value.value.id in symbols)
+        if size and isinstance(r, ast.Constant) and r.value in (0, 1):
+            k = (type(op).__name__, r.value)
+            res = {('Eq', 0): 'empty', ('NotEq', 0): 'nonempty', ('Gt', 0): 'nonempty', ('GtE', 1): 'nonempty',
+                   ('Lt', 1): 'empty', ('LtE', 0): 'empty'}.get(k)
+    if res is None:
+        return None
+    if neg:
+        res = 'empty' if res == 'nonempty' else 'nonempty'
+    return res
+
+
+def is_one(e):
+    return isinstance(e, ast.Constant) and e.value in (1, 1.0) and not isinstance(e.value, bool)
+
+
+def floored(e):
+    """if e is max(1, E) in any spelling: return E"""
+    if isinstance(e, ast.Call) and U(e.func) in ('max', 'np.maximum', 'numpy.maximum', 'np.max', 'builtins.max') and len(e.args) == 2 and not e.keywords:
+        a, b = e.args
+        if is_one(a):
+            return b
+        if is_one(b):
+            return a
+    if isinstance(e, ast.Call) and U(e.func) in ('max', 'np.max') and len(e.args) == 1 and isinstance(e.args[0], (ast.List, ast.Tuple)) \
+            and len(e.args[0].elts) == 2:
+        a, b = e.args[0].elts
+        if is_one(a):
+            return b
+        if is_one(b):
+            return a
+    if isinstance(e, ast.IfExp) and isinstance(e.test, ast.Compare) and len(e.test.ops) == 1:
+        l, op, r = e.test.left, e.test.ops[0], e.test.comparators[0]
+        if is_one(l):
+            flip = {ast.Lt: ast.Gt, ast.Gt: ast.Lt, ast.LtE: ast.GtE, ast.GtE: ast.LtE}
+            if type(op) not in flip:
+                return None
+            l, op, r = r, flip[type(op)](), l
+        if not is_one(r):
+            return None
+        if isinstance(op, (ast.Gt, ast.GtE)) and T(e.body) == T(l) and is_one(e.orelse):
+            return l
+        if isinstance(op, (ast.Lt, ast.LtE)) and T(e.orelse) == T(l) and is_one(e.body):
+            return l
+    return None
+
+
 def check_features(ctx, fi, block, total):
-    loops = [s for s in block if isinstance(s, ast.For)]
-    if len(loops) != 1 or not isinstance(loops[0].target, ast.Tuple) or len(loops[0].target.elts) != 4:
-        raise AnalysisError('%s: loop over (Q, y, noise, proj) measurements not found' % fi.qualname)
-    loop = loops[0]
-    Q, y, noise, proj = [U(e) for e in loop.target.elts]
-    defs = {}
-    for s in loop.body:
-        if isinstance(s, ast.Assign) and len(s.targets) == 1 and isinstance(s.targets[0], ast.Name):
-            defs[s.targets[0].id] = s
+    where = fi.qualname
+    stmts = copy.deepcopy(block)
+    if total is None:
+        total = '__total__'
+        stmts, _ = single_exit(stmts, total)
+
+    def loop_ok(s):
+        return isinstance(s.target, ast.Tuple) and len(s.target.elts) == 4 and all(isinstance(e, ast.Name) for e in s.target.elts)
+    be = BlockEval(where, loop_ok)
+    be.run(stmts)
+    loops = getattr(be, 'loops_done', [])
+    if len(loops) != 1:
+        raise AnalysisError('%s: loop over (Q, y, noise, proj) measurements not found' % where)
+    loop, entry = loops[0]
+    Q, y, noise, proj = [e.id for e in loop.target.elts]
+    if not be.events:
+        raise AnalysisError('%s: no accumulator is grown inside the measurement loop' % where)
+
     # ---- the solve ------------------------------------------------------------------------------
-    solve = None
-    for name, s in defs.items():
-        for c in calls_in(s.value):
-            if U(c.func).split('.')[-1] in ('lsmr', 'lsqr', 'lstsq'):
-                solve = (name, s, c)
-    if solve is None:
-        raise AnalysisError('%s: least-squares solve not found' % fi.qualname)
-    v, solve_stmt, solve_call = solve
-    op, rhs = solve_call.args[0], solve_call.args[1]
-    rhs_def = defs.get(U(rhs))
-    ok = rhs_def is not None and U(rhs_def.value).replace(' ', '') in ('np.ones(%s.shape[1])' % Q, 'numpy.ones(%s.shape[1])' % Q)
-    ctx.ob('ones-target', fi, rhs_def or solve_stmt, ok and U(op) == Q + '.T',
-           'solve %s.T v = 1 with one entry of the ones vector per column of %s (per cell); got operator `%s`, target `%s`'
-           % (Q, Q, U(op), U(rhs_def.value) if rhs_def is not None else U(rhs)))
-    tests = [s for s in loop.body if isinstance(s, ast.If)]
-    if len(tests) != 1:
-        raise AnalysisError('%s: row-space test not found' % fi.qualname)
-    test = tests[0]
-    t = test.test
-    ok = False
-    if isinstance(t, ast.Call) and U(t.func).split('.')[-1] == 'allclose' and len(t.args) >= 2:
-        a, b = t.args[0], t.args[1]
-        applied = U(a).replace(' ', '') in ('%s.dot(%s)' % (U(op), v), '%s@%s' % (U(op), v))
-        ok = applied and U(b) == U(rhs)
-    ctx.ob('same-system', fi, test, ok,
-           'the row-space test must apply the solved operator `%s` to the solution `%s` and compare with the target `%s`; test `%s`'
-           % (U(op), v, U(rhs), U(t)))
-    # ---- appends under the test ---------------------------------------------------------------------------
-    appends = {}
-    for s in ast.walk(loop):
-        if isinstance(s, ast.Assign) and isinstance(s.value, ast.Call) and U(s.value.func).split('.')[-1] == 'append' \
-                and len(s.value.args) == 2 and U(s.targets[0]) == U(s.value.args[0]):
-            appends[U(s.targets[0])] = s
-        if isinstance(s, ast.Expr) and isinstance(s.value, ast.Call) and isinstance(s.value.func, ast.Attribute) \
-                and s.value.func.attr == 'append' and len(s.value.args) == 1:
-            appends[U(s.value.func.value)] = s
-    if len(appends) != 2:
-        raise AnalysisError('%s: expected two accumulators (variances, estimates), found %s' % (fi.qualname, sorted(appends)))
-    in_test = {id(n) for b in test.body for n in ast.walk(b)}
-    for name, s in sorted(appends.items()):
-        ctx.ob('guarded-append', fi, s, id(s) in in_test and not test.orelse,
-               'a measurement may contribute to `%s` only when its query can express the count (inside the row-space test)' % name)
+    solves = {}
+    for ev_ in be.events:
+        for e in [ev_.value] + [c for c, _ in ev_.pc]:
+            for n in ast.walk(e):
+                if isinstance(n, ast.Subscript) and isinstance(n.value, ast.Call) and U(n.value.func).split('.')[-1] in SOLVERS \
+                        and isinstance(n.slice, ast.Constant) and n.slice.value == 0:
+                    solves[T(n)] = n
+    if not solves:
+        raise AnalysisError('%s: least-squares solve not found' % where)
+    if len(solves) > 1:
+        ctx.ob('same-system', fi, loop, False, 'the row-space test and the recorded values must use one and the same solve; found %d different ones: %s'
+               % (len(solves), sorted(solves)), construct='solves in ' + where)
+        return None
+    solve_text, solve = list(solves.items())[0]
+    call = solve.value
+    if len(call.args) < 2:
+        raise AnalysisError('%s: solver call without operator and target' % where)
+    op, rhs = call.args[0], call.args[1]
+    ones = T(rhs) in ('np.ones(%s.shape[1])' % Q, 'numpy.ones(%s.shape[1])' % Q, 'np.ones(%s.T.shape[0])' % Q)
+    ctx.ob('ones-target', fi, loop, ones and T(op) in (Q + '.T', Q + '.transpose()'),
+           'solve %s.T v = 1 with one entry of the ones vector per column of %s (per cell); got operator `%s`, target `%s`' % (Q, Q, U(op), U(rhs)),
+           construct='solve in ' + where)
+
+    def with_v(e):
+        return Replace(lambda n: name('__v__') if isinstance(n, ast.Subscript) and T(n) == solve_text else None).visit(copy.deepcopy(e))
+
+    # ---- accumulators: start empty, grow by append only, under exactly the row-space test -------------------------
+    accs = {}
+    for ev_ in be.events:
+        accs.setdefault(ev_.name, []).append(ev_)
+    want_guard = None
+    for acc, evs in sorted(accs.items()):
+        init = entry.get(acc)
+        ok = init is not None and T(init) in EMPTY_INITS
+        ctx.ob('guarded-append', fi, evs[0].stmt, ok,
+               'accumulator `%s` must start empty (one entry per *usable* measurement); it starts as `%s`' % (acc, U(init) if init is not None else 'undefined'),
+               construct='initial value of ' + acc)
+        for ev_ in evs:
+            if ev_.kind != 'append':
+                ctx.ob('guarded-append', fi, ev_.stmt, False,
+                       '`%s` is filled by indexed store: slots of measurements that failed the row-space test keep their initial value' % acc)
+                if want_guard is None and len(ev_.pc) == 1 and isinstance(ev_.pc[0][0], ast.Call) and U(ev_.pc[0][0].func).endswith('allclose'):
+                    want_guard = with_v(ev_.pc[0][0])
+                continue
+            conds = [(with_v(c), pol) for c, pol in ev_.pc]
+            good = False
+            if len(conds) == 1 and conds[0][1] and isinstance(conds[0][0], ast.Call) and U(conds[0][0].func).split('.')[-1] == 'allclose':
+                good = True
+                if want_guard is None:
+                    want_guard = conds[0][0]
+                    t = want_guard
+                    a, b = (t.args + [None, None])[:2]
+                    applied = a is not None and T(a) in ('%s.dot(__v__)' % T(op), '%s@__v__' % T(op), '__v__@%s' % Q, '__v__.dot(%s)' % Q,
+                                                         'np.dot(%s,__v__)' % T(op))
+                    ctx.ob('same-system', fi, ev_.stmt, applied and b is not None and T(b) == T(rhs),
+                           'the row-space test must apply the solved operator `%s` to the solution and compare with the target `%s`; test `%s`'
+                           % (U(op), U(rhs), U(t)), construct='row-space test in ' + where)
+                elif T(conds[0][0]) != T(want_guard):
+                    good = False
+            ctx.ob('guarded-append', fi, ev_.stmt, good,
+                   'a measurement may contribute to `%s` exactly when its query can express the count (row-space test); it contributes when `%s`'
+                   % (acc, ev_.guard_text()[:200]))
+    if want_guard is None:
+        ctx.ob('same-system', fi, loop, False, 'no append is guarded by a row-space test np.allclose(%s.T.dot(v), ones)' % Q,
+               construct='row-space test in ' + where)
+
     # ---- forms ----------------------------------------------------------------------------------------------------
     atoms = Atoms()
     ev = MatEval({}, atoms)
     ev.hook = red_hook(atoms)
-    want_var = ev.ev(ast.parse('%s**2 * np.dot(%s, %s)' % (noise, v, v), mode='eval').body)
-    want_est = ev.ev(ast.parse('np.dot(%s, %s)' % (v, y), mode='eval').body)
-    var_acc = est_acc = None
-    for name, s in appends.items():
-        val = s.value.args[-1]
-        try:
-            got = ev.ev(val)
-        except AnalysisError as e:
-            raise AnalysisError('%s: appended value `%s` outside the reduction dialect (%s)' % (fi.qualname, U(val), e))
-        if noise in names_in(val) or var_acc is None and got.eq(want_var):
-            if var_acc is None and (noise in names_in(val)):
-                var_acc = name
-                ctx.ob('variance-form', fi, s, got.eq(want_var),
-                       'variance of the linear estimate v.y is noise^2 * <v, v>: expected %r, source %r' % (want_var, got))
-                continue
-        est_acc = name
-        ctx.ob('estimate-form', fi, s, got.eq(want_est), 'the linear estimate is <v, y>: expected %r, source %r' % (want_est, got))
-    if var_acc is None or est_acc is None:
-        raise AnalysisError('%s: could not tell the variance accumulator from the estimate accumulator' % fi.qualname)
-    # ---- combination, floor, default (statements after the loop) ---------------------------------------------------
-    after = block[block.index(loop) + 1:]
-    fin = [s for s in after if isinstance(s, ast.If)]
-    if len(fin) != 1:
-        raise AnalysisError('%s: final `if <no estimates>: ... else: ...` not found' % fi.qualname)
-    fin = fin[0]
-    empty_ok = U(fin.test).replace(' ', '') in ('%s.size==0' % est_acc, 'len(%s)==0' % est_acc, '%s.size==0' % var_acc)
-
-    def result_of(stmts):
-        for s in stmts:
-            if isinstance(s, ast.Return):
-                return s, s.value
-            if total is not None and isinstance(s, ast.Assign) and U(s.targets[0]) == total:
-                return s, s.value
-        return None, None
-    s_empty, v_empty = result_of(fin.body)
-    s_full, v_full = result_of(fin.orelse)
-    ctx.ob('floor-and-default', fi, fin, empty_ok and v_empty is not None and U(v_empty) in ('1', '1.0'),
-           'with no usable measurement the total defaults to 1 (test `%s`, value `%s`)' % (U(fin.test), U(v_empty) if v_empty is not None else None))
-    env = {}
-    ev2 = MatEval(env, atoms)
-    ev2.hook = red_hook(atoms)
-    comb = None
-    for s in fin.orelse:
-        if isinstance(s, ast.Assign) and len(s.targets) == 1 and isinstance(s.targets[0], ast.Name) and s is not s_full:
+    want_var = ev.ev(ast.parse('%s**2 * np.dot(__v__, __v__)' % noise, mode='eval').body)
+    want_est = ev.ev(ast.parse('np.dot(__v__, %s)' % y, mode='eval').body)
+    roles = {}           # (acc, idx) -> '__var__' | '__est__'
+    for acc, evs in sorted(accs.items()):
+        evs = [e for e in evs if e.kind == 'append']
+        if len(evs) != 1:
+            if len(evs) > 1:
+                raise AnalysisError('%s: accumulator `%s` grown at %d sites' % (where, acc, len(evs)))
+            continue
+        val = with_v(evs[0].value)
+        comps = list(enumerate(val.elts)) if isinstance(val, ast.Tuple) else [(None, val)]
+        for idx, c in comps:
             try:
-                env[s.targets[0].id] = ev2.ev(s.value)
-                ev2.env = env
+                got = ev.ev(c)
             except AnalysisError as e:
-                raise AnalysisError('%s: `%s` outside the reduction dialect (%s)' % (fi.qualname, U(s), e))
-    ok_floor = False
-    if v_full is not None and isinstance(v_full, ast.Call) and U(v_full.func) == 'max' and len(v_full.args) == 2:
-        a, b = v_full.args
-        one = [x for x in (a, b) if U(x) in ('1', '1.0')]
-        oth = [x for x in (a, b) if U(x) not in ('1', '1.0')]
-        if one and oth:
-            ok_floor = True
-            comb = ev2.ev(oth[0])
-    ctx.ob('floor-and-default', fi, s_full or fin, ok_floor, 'the estimated total is floored at 1: `%s`' % (U(v_full) if v_full is not None else None),
-           construct='floor: ' + (U(s_full) if s_full is not None else '?'))
-    if comb is not None:
-        want = ev2.__class__({}, atoms)
-        want.hook = red_hook(atoms)
-        w = want.ev(ast.parse('np.sum(%s / %s) / np.sum(1 / %s)' % (est_acc, var_acc, var_acc), mode='eval').body)
-        ctx.ob('combination-form', fi, s_full, comb.eq(w),
-               'inverse-variance weighting: expected %r, source %r' % (w, comb), construct='combination: ' + U(s_full))
+                got = MatEval({}, atoms).ev(name('__unrecognised__'))
+                ctx.note('%s: appended value `%s` is outside the reduction dialect (%s)' % (where, U(c), e))
+            is_var = noise in names_in(c) or got.eq(want_var)
+            if is_var and '__var__' not in roles.values():
+                roles[(acc, idx)] = '__var__'
+                ctx.ob('variance-form', fi, evs[0].stmt, got.eq(want_var),
+                       'variance of the linear estimate v.y is noise^2 * <v, v>: expected %r, source %r' % (want_var, got),
+                       construct='variance recorded in ' + where)
+            else:
+                roles[(acc, idx)] = '__est__' if '__est__' not in roles.values() else '__other__'
+                ctx.ob('estimate-form', fi, evs[0].stmt, got.eq(want_est), 'the linear estimate is <v, y>: expected %r, source %r' % (want_est, got),
+                       construct='estimate recorded in ' + where)
+    if ('__var__' not in roles.values() or '__est__' not in roles.values()) and any(e.kind == 'store' for e in be.events):
+        return None      # already reported: filled by indexed stores
+    if '__var__' not in roles.values() or '__est__' not in roles.values():
+        raise AnalysisError('%s: could not tell the variance accumulator from the estimate accumulator' % where)
+
+    # ---- result: default, floor, combination --------------------------------------------------------------------
+    R = be.env.get(total)
+    if R is None:
+        raise AnalysisError('%s: the estimated total is never assigned' % where)
+    multi = {acc for (acc, idx) in roles if idx is not None}
+
+    def view(n):
+        if isinstance(n, ast.Name):
+            if (n.id, None) in roles:
+                return name(roles[(n.id, None)])
+            if n.id in multi:
+                return name('__acc__')
+            return None
+        if isinstance(n, ast.Call) and U(n.func) in ('np.array', 'np.asarray', 'numpy.array', 'list', 'tuple') and len(n.args) == 1:
+            inner = view(n.args[0])
+            if inner is not None and inner.id != '__acc__':
+                return inner
+            return None
+        if isinstance(n, (ast.ListComp, ast.GeneratorExp)) and len(n.generators) == 1 and not n.generators[0].ifs \
+                and isinstance(n.generators[0].iter, ast.Name) and n.generators[0].iter.id in multi:
+            g = n.generators[0]
+            acc = g.iter.id
+            idx = None
+            if isinstance(g.target, ast.Name) and isinstance(n.elt, ast.Subscript) and U(n.elt.value) == g.target.id \
+                    and isinstance(n.elt.slice, ast.Constant):
+                idx = n.elt.slice.value
+            elif isinstance(g.target, ast.Tuple) and isinstance(n.elt, ast.Name):
+                ids = [U(e) for e in g.target.elts]
+                idx = ids.index(n.elt.id) if n.elt.id in ids else None
+            if (acc, idx) in roles:
+                return name(roles[(acc, idx)])
+        return None
+    R = Replace(view).visit(copy.deepcopy(R))
+    symbols = {'__var__', '__est__', '__acc__', '__other__'}
+    lists = {'__acc__'} | {roles[k] for k in roles if T(entry.get(k[0])) in ('[]', 'list()')}
+    default = full = None
+    if isinstance(R, ast.IfExp):
+        k = empty_test(R.test, symbols, lists)
+        if k == 'empty':
+            default, full = R.body, R.orelse
+        elif k == 'nonempty':
+            default, full = R.orelse, R.body
+    ctx.ob('floor-and-default', fi, loop, default is not None and is_one(default),
+           'with no usable measurement the total defaults to 1; the result is `%s`' % U(R)[:200], construct='default in ' + where)
+    if full is None:
+        full = R
+    E = floored(full)
+    ctx.ob('floor-and-default', fi, loop, E is not None, 'the estimated total is floored at 1: `%s`' % U(full)[:200], construct='floor in ' + where)
+    if E is None:
+        E = full
+    ev2 = MatEval({}, atoms)
+    ev2.hook = red_hook(atoms)
+    try:
+        comb = ev2.ev(E)
+    except AnalysisError as e:
+        raise AnalysisError('%s: combination `%s` outside the reduction dialect (%s)' % (where, U(E)[:120], e))
+    w = ev2.ev(ast.parse('np.sum(__est__ / __var__) / np.sum(1 / __var__)', mode='eval').body)
+    ctx.ob('combination-form', fi, loop, comb.eq(w), 'inverse-variance weighting: expected %r, source %r' % (w, comb),
+           construct='combination in ' + where)
+    feats = {'solver': U(call.func).split('.')[-1], 'solver-kw': tuple(sorted((k.arg, T(k.value)) for k in call.keywords)),
+             'solver-extra-args': tuple(T(a) for a in call.args[2:])}
+    if want_guard is not None:
+        feats['test-kw'] = tuple(sorted((k.arg, T(k.value)) for k in want_guard.keywords)) + tuple(T(a) for a in want_guard.args[2:])
+    return feats
 
 
-def canon_block(block, total):
-    """alpha-renamed dump of the estimator block; `return X` and `<total> = X` are identified"""
-    stmts = copy.deepcopy(block)
-    mod = ast.Module(body=stmts, type_ignores=[])
-    names = {}
-
-    class R(ast.NodeTransformer):
-        def visit_Return(self, node):
-            self.generic_visit(node)
-            return ast.Assign(targets=[ast.Name(id='__total__', ctx=ast.Store())], value=node.value, lineno=0, col_offset=0)
-
-        def visit_Name(self, node):
-            if node.id in ('np', 'numpy', 'lsmr', 'max', 'min', 'len'):
-                return node
-            if total is not None and node.id == total:
-                return ast.Name(id='__total__', ctx=node.ctx)
-            names.setdefault(node.id, 'v%d' % len(names))
-            return ast.Name(id=names[node.id], ctx=node.ctx)
-    mod = R().visit(mod)
-    return ast.dump(mod, annotate_fields=False, include_attributes=False)
-
-
-def check_siblings(ctx, blocks):
-    dumps = [canon_block(b, t) for fi, b, t in blocks]
-    counts = {}
-    for d in dumps:
-        counts[d] = counts.get(d, 0) + 1
-    majority = max(counts, key=lambda d: counts[d])
-    deviants = set()
-    for (fi, b, t), d in zip(blocks, dumps):
-        ok = d == majority and counts[majority] >= 2
-        where = b[0]
-        detail = 'copy agrees with %d other cop%s' % (counts[d] - 1, 'y' if counts[d] == 2 else 'ies')
-        if not ok:
-            # locate the first diverging statement
-            ref = [bb for (f2, bb, t2), d2 in zip(blocks, dumps) if d2 == majority][0]
-            reft = [t2 for (f2, bb, t2), d2 in zip(blocks, dumps) if d2 == majority][0]
-            for s1, s2 in zip(all_stmts(b), all_stmts(ref)):
-                if canon_block([s1], t) != canon_block([s2], reft) and not isinstance(s1, (ast.For, ast.If)):
-                    where = s1
-                    detail = 'diverges from the majority of the four copies at `%s` (majority: `%s`)' % (U(s1), U(s2))
-                    break
-        ctx.ob('sibling-agreement', fi, where, ok, 'the four copies of the total estimator must be one program: ' + detail,
-               construct=('estimator copy in ' + fi.qualname) if ok else U(where)[:120])
-        if not ok:
-            deviants.add(fi.qualname + '@' + fi.rel)
-    return deviants
-
-
-def all_stmts(block):
-    out = []
-    for s in block:
-        out.append(s)
-        for f in ('body', 'orelse'):
-            out.extend(all_stmts(getattr(s, f, []) or []))
-    return out
+def check_siblings(ctx, feats):
+    """the copies must agree on how exactly they solve and test (tolerances, solver): a one-sided edit diverges from the majority"""
+    keys = sorted({k for _, f in feats for k in f})
+    for k in keys:
+        counts = {}
+        for fi, f in feats:
+            counts[f.get(k)] = counts.get(f.get(k), 0) + 1
+        majority = max(counts, key=lambda v: counts[v])
+        for fi, f in feats:
+            ok = f.get(k) == majority and counts[majority] >= 2
+            ctx.ob('sibling-agreement', fi, fi.node, ok,
+                   'the copies of the total estimator must solve and test alike: %s is %s here, %s in the majority' % (k, f.get(k), majority),
+                   construct='%s of the estimator in %s' % (k, fi.qualname))
